@@ -38,3 +38,19 @@ Theorem C17_n_event_report : forall q o, q_cf q = 256 ->
             /\ o_status r = Some (match o with HStatus _ => 0 | HError => PROCESSING_FAILURE end).
 Proof. exact n_event_report_correlates. Qed.
 Print Assumptions C17_n_event_report.
+
+Theorem C17_move : forall q nop subs, q_cf q = 33 -> Forall (correlates q) (move_scp q nop subs).
+Proof. exact move_scp_correlates. Qed.
+Print Assumptions C17_move.
+
+(* every request that reaches a provider is answered: the responses end with exactly one final
+   (non-pending) response; everything before it is pending (for C-ECHO / C-STORE: provided the status the
+   application returns is itself a final one) *)
+Theorem C17_every_request_answered : forall q,
+  (forall o, (forall c, o = HStatus c -> final_code c) -> answered (echo_scp q o))
+  /\ (forall o, (forall c, o = HStatus c -> final_code c) -> answered (store_scp q o))
+  /\ (forall o, answered (n_action_scp q o)) /\ (forall o, answered (n_event_report_scp q o))
+  /\ (forall matches, Forall (fun m => find_pending (snd m) = true) matches -> answered (find_scp q matches))
+  /\ (forall nop subs, answered (move_scp q nop subs)).
+Proof. exact all_answered_for. Qed.
+Print Assumptions C17_every_request_answered.
